@@ -3,7 +3,8 @@ import Proofs.HeaderWrite
 /-!
 `mode_info` at the start of a file section: the `diff ` line handler calls `handle_pending_line_with_diff_name` in a
 file-header state, so mode information that is still there is written with the pending header and consumed by that
-write - under every file style that writes a header at all (raw included; the omitted style is the one exception).
+write - under every file style: raw included, and (since the repair of the early return of
+`write_generic_diff_header_header_line`, which now clears `mode_info` before it returns) the omitted style too.
 -/
 namespace Machine.ModeInfo
 open Machine Headers
@@ -26,21 +27,19 @@ theorem pendingTest_diffLineState (m : M) (l : L) : pendingTest { m with st := d
   unfold pendingTest diffLineState
   split <;> rfl
 
-/-- the model's header write leaves no mode information, unless the file style is omitted (outside color-only mode) -/
-theorem writeGeneric_consumes (cfg : Cfg) (m : M) (t r : Str) (h : ¬ (cfg.fileStyle.isOmitted ∧ ¬ cfg.colorOnly)) :
-    (writeGeneric cfg m t r).modeInfo = [] := by
-  rw [writeGeneric_modeInfo, if_neg h]
+/-- the model's header write leaves no mode information, for every configuration -/
+theorem writeGeneric_consumes (cfg : Cfg) (m : M) (t r : Str) : (writeGeneric cfg m t r).modeInfo = [] :=
+  writeGeneric_modeInfo cfg m t r
 
 /-- after a `diff ` line has been handled no mode information of the previous section is left, whatever the machine
-held before - under every configuration that writes file headers at all -/
+held before - under every configuration -/
 theorem diffLine_clears_modeInfo {cfg : Cfg} {m m' : M} {l : L} {b : Bool}
     (hl : startsWith l.text Generated.Markers.diffLine = true)
-    (e : handleDiffHeaderDiff cfg m l = .ok (b, m'))
-    (h : ¬ (cfg.fileStyle.isOmitted ∧ ¬ cfg.colorOnly)) : m'.modeInfo = [] := by
+    (e : handleDiffHeaderDiff cfg m l = .ok (b, m')) : m'.modeInfo = [] := by
   unfold handleDiffHeaderDiff at e
   simp only [hl, Bool.not_true, Bool.false_eq_true, if_false] at e
   have hp := pendingDiffName_modeInfo_written cfg { flushMP m with st := diffLineState l }
-    (pendingTest_diffLineState (flushMP m) l) h
+    (pendingTest_diffLineState (flushMP m) l)
   split at e
   · cases e
     rw [diffLineFields_mi]; exact hp
